@@ -91,3 +91,40 @@ Fixpoint map_put (m : list (gval * gval)) (k v : gval) : list (gval * gval) :=
   | [] => [(k, v)]
   | (k', v') :: m' => if gkey_eqb k' k then (k', v) :: m' else (k', v') :: map_put m' k v
   end.
+
+Fixpoint obj_get (l : list (sym * gval)) (k : sym) : option gval :=
+  match l with
+  | [] => None
+  | (k', v) :: l' => if N.eqb k' k then Some v else obj_get l' k
+  end.
+
+(** Equality of generic values up to the order of object members and map
+    pairs and the representation of numbers (used by the correspondence
+    checker only). *)
+Fixpoint list_eqv {A} (e : A -> A -> bool) (l l' : list A) : bool :=
+  match l, l' with
+  | [], [] => true
+  | x :: r, y :: r' => e x y && list_eqv e r r'
+  | _, _ => false
+  end.
+Fixpoint geqv (fuel : nat) (a b : gval) : bool :=
+  match fuel with
+  | O => false
+  | S f =>
+      match a, b with
+      | GNull, GNull => true
+      | GBool x, GBool y => Bool.eqb x y
+      | GNum n d, GNum n' d' => Z.eqb (n * Zpos d') (n' * Zpos d)
+      | GStr x, GStr y => N.eqb x y
+      | GUuid x, GUuid y => N.eqb x y
+      | GArr l, GArr l' => list_eqv (geqv f) l l'
+      | GSet l, GSet l' => list_eqv (geqv f) l l'
+      | GObj l, GObj l' =>
+          Nat.eqb (length l) (length l') &&
+          forallb (fun kv => match obj_get l' kv.1 with Some v' => geqv f kv.2 v' | None => false end) l
+      | GMap l, GMap l' =>
+          Nat.eqb (length l) (length l') &&
+          forallb (fun kv => existsb (fun kv' => geqv f kv.1 kv'.1 && geqv f kv.2 kv'.2) l') l
+      | _, _ => false
+      end
+  end.
